@@ -596,10 +596,16 @@ class QuicConnection:
                     network_path.bytes_received * 3 - network_path.bytes_sent
                 )
 
-            try:
-                if not self._handshake_confirmed:
-                    for epoch in [tls.Epoch.INITIAL, tls.Epoch.HANDSHAKE]:
+            # A packet number space which cannot send, for instance because
+            # of the congestion window, must not keep the other spaces from
+            # sending their acknowledgements.
+            if not self._handshake_confirmed:
+                for epoch in [tls.Epoch.INITIAL, tls.Epoch.HANDSHAKE]:
+                    try:
                         self._write_handshake(builder, epoch, now)
+                    except QuicPacketBuilderStop:
+                        pass
+            try:
                 self._write_application(builder, network_path, now)
             except QuicPacketBuilderStop:
                 pass
